@@ -26,7 +26,7 @@ RULE = ("a case is a history of steps define(version k) / call(live version j, a
         "arguments: exhaustive up to length 4 (quick) / 5 (thorough) and sampled up to length 12, for same-session styles "
         "'cells' (each definition exec'd with its own source, as in a notebook), 'samefile' (several same-named definitions at different lines of one module file, all alive), 'lambda', 'nested', 'codeswap', 'reload' "
         "(module file rewritten + importlib.reload), and across fresh processes ('module' and '__main__' scripts, including "
-        "sessions that change nothing); distinct_nontrivial counts distinct histories with at least two versions and one "
+        "sessions that change nothing, and sessions in which one function object is cached by two Memory objects on two directories with calls alternating between them); distinct_nontrivial counts distinct histories with at least two versions and one "
         "call of a version other than the latest")
 ASSUMPTIONS = [
     "a version's value is ('v<k>', a): tag equality decides which code computed it",
@@ -35,8 +35,8 @@ ASSUMPTIONS = [
     "nested functions / lambdas that differ only in closure values have the same source and are outside the statement",
 ]
 SHARDS = {"quick": 12, "thorough": 14}
-FLOORS = {"quick": {"histories": 800, "calls_checked": 2500, "old_version_calls": 700, "idreuse_achieved": 5, "forced_calls": 150, "fresh_process_sessions": 60, "unchanged_sessions_checked": 15},
-          "thorough": {"idreuse_achieved": 50, "histories": 30000, "calls_checked": 100000, "old_version_calls": 30000, "fresh_process_sessions": 2000, "unchanged_sessions_checked": 400}}
+FLOORS = {"quick": {"histories": 800, "calls_checked": 2500, "old_version_calls": 700, "idreuse_achieved": 5, "forced_calls": 150, "fresh_process_sessions": 60, "unchanged_sessions_checked": 8, "histories_with_two_cache_directories": 100, "hash_colliding_code_swaps": 30},
+          "thorough": {"idreuse_achieved": 50, "histories": 30000, "calls_checked": 100000, "old_version_calls": 30000, "fresh_process_sessions": 2000, "unchanged_sessions_checked": 250, "histories_with_two_cache_directories": 3000, "hash_colliding_code_swaps": 500}}
 
 EXEC = []
 _uid = [0]
@@ -85,7 +85,7 @@ def cases(tier, seed):
     n = 60 if tier == "quick" else 1500
     for i in range(n):
         yield dict(kind="random", i=i)
-    m = 24 if tier == "quick" else 500
+    m = 40 if tier == "quick" else 600
     for i in range(m):
         yield dict(kind="processes", i=i)
 
@@ -140,7 +140,7 @@ def samefile_module(d):
     return mod
 
 
-def run_history(style, h, ctx, d, shape=None):
+def run_history(style, h, ctx, d, shape=None, two_dirs=False):
     from joblib import Memory
     if shape:
         ctx.count("shaped_histories")
@@ -150,7 +150,11 @@ def run_history(style, h, ctx, d, shape=None):
     with warnings.catch_warnings():
         warnings.simplefilter("ignore")
         mem = Memory(cache, verbose=0)
+        mem_b = Memory(cache + "_b", verbose=0) if two_dirs else None
     live = {}
+    live_b = {}      # the same function objects cached by a second Memory on another directory
+    if two_dirs:
+        ctx.count("histories_with_two_cache_directories")
     modfile = os.path.join(d, "c12reload.py")
     ctx.count("histories")
     sys.modules.pop("c12reload", None)
@@ -199,19 +203,27 @@ def run_history(style, h, ctx, d, shape=None):
                     live = {k: swap_holder["c"]}                     # only the newest code is live
                 else:
                     live[k] = mem.cache(define_cell(style, k, shape))
+                if two_dirs and style in ("cells", "lambda", "nested", "reload", "samefile") and k in live:
+                    live_b[k] = mem_b.cache(live[k].func)
+                    if style == "reload":
+                        got = live_b[k](-1)
+                        if got != (f"v{k}", -1):
+                            ctx.violation(f"wrong-version:{style_key}:second-directory", f"warm-up call of version {k} through the second Memory returned {got}; {desc}", desc)
+                            return
                 versions_defined.append(k)
             else:
                 kind, j, a = s
                 if j not in live:
                     continue
                 before = len(EXEC)
+                through = live_b if (j in live_b and idx % 2) else live
                 try:
                     if kind == "force":
                         # MemorizedFunc.call: force the execution and store the result
-                        got = live[j].call(a)[0]
+                        got = through[j].call(a)[0]
                         ctx.count("forced_calls")
                     else:
-                        got = live[j](a)
+                        got = through[j](a)
                 except Exception as e:  # noqa
                     ctx.violation(f"call-raised:{style_key}", f"call of version {j} raised {type(e).__name__}: {e}; {desc}", desc)
                     return
@@ -270,6 +282,48 @@ def run_idreuse(ctx, d, rng):
                       f"__code__ swapped v1 -> v2 -> v3 where the v3 code object reuses the address of the collected v1 code object: calls returned {first}, {second}, {third}", desc)
 
 
+HASH_TWINS = [("-1", "-2"), ("-1", "-2"), ("0", "2305843009213693951"), ("7", "2305843009213693958"), ("(3, -1)", "(3, -2)"), ("[x, -1][1]", "[x, -2][1]"),
+              ("0.0", "-0.0"), ("1", "True"), ("1", "1.0")]
+
+
+def run_hashtwin(ctx, d, rng):
+    """__code__ swapped to a code object that differs only in a constant with the same hash() (-1 / -2, 0.0 / -0.0, 1 / True ...):
+    whatever joblib remembers about the old code object must not make it take the new one for unchanged code"""
+    from joblib import Memory
+    with warnings.catch_warnings():
+        warnings.simplefilter("ignore")
+        _uid[0] += 1
+        mem = Memory(os.path.join(d, f"cachetw{_uid[0]}"), verbose=0)
+        ca, cb = rng.choice(HASH_TWINS)
+        if rng.random() < 0.5:
+            ca, cb = cb, ca
+
+        def cell(const):
+            _uid[0] += 1
+            fn = f"<c12-twin-{os.getpid()}-{_uid[0]}>"
+            src = f"def f(x):\n    return ({const!s}, x)\n"
+            linecache.cache[fn] = (len(src), None, src.splitlines(True), fn)
+            g = {"__name__": "c12cells"}
+            exec(compile(src, fn, "exec"), g)
+            return g["f"]
+
+        f = cell(ca)
+        c = mem.cache(f)
+        a = rng.randint(0, 2)
+        first = c(a)
+        f.__code__ = cell(cb).__code__
+        second = c(a)
+    ctx.count("calls_checked", 2)
+    ctx.count("hash_colliding_code_swaps")
+    x = a
+    want = (eval(ca), a), (eval(cb), a)       # expressions generated by this check
+    same = lambda u, v: u == v and [type(x) for x in u] == [type(x) for x in v] and repr(u) == repr(v)  # noqa: E731
+    if not (same(first, want[0]) and same(second, want[1])):
+        desc = dict(style="codeswap-hash-twin", constants=[ca, cb], values=[repr(first), repr(second)])
+        ctx.violation("newer-definition-served-older-value:codeswap-hash-twin",
+                      f"__code__ swapped from 'return ({ca}, x)' to 'return ({cb}, x)' (constants with equal hash()): calls returned {first!r}, {second!r}", desc)
+
+
 def run_case(case, ctx):
     if case["kind"] == "processes":
         return run_processes(case, ctx)
@@ -280,12 +334,18 @@ def run_case(case, ctx):
             for _ in range(3):
                 run_idreuse(ctx, d, harness.rng_for(ctx.seed, ID, "idreuse", len(case["hs"]), _))
                 del EXEC[:]
+                run_hashtwin(ctx, d, harness.rng_for(ctx.seed, ID, "hashtwin", harness.h(case["hs"][0], 8), _))
+                run_hashtwin(ctx, d, harness.rng_for(ctx.seed, ID, "hashtwin2", harness.h(case["hs"][0], 8), _))
             for item in case["hs"]:
                 styles = ["cells", "samefile", "lambda", "nested", "reload", "codeswap"] if case["all_styles"] else sorted({item["style"], "cells"})
                 for st in styles:
                     ctx.evaluated()
                     run_history(st, [tuple(s) for s in item["h"]], ctx, d)
                     del EXEC[:]
+                    if st in ("cells", "samefile", "reload") and len(item["h"]) >= 3 and _shape_i[0] % 3 == 0:
+                        ctx.evaluated()
+                        run_history(st, [tuple(s) for s in item["h"]], ctx, d, two_dirs=True)
+                        del EXEC[:]
                     if st in ("cells", "reload") and len(item["h"]) >= 3:
                         # the same history with the versions' difference placed elsewhere in the definition
                         _shape_i[0] += 1
@@ -304,7 +364,8 @@ def run_case(case, ctx):
                         h.append(s)
                 ctx.evaluated()
                 st = rng.choice(["cells", "samefile", "samefile", "lambda", "nested", "reload", "codeswap"])
-                run_history(st, h, ctx, d, shape=rng.choice(c12_shapes.NAMES) if st in ("cells", "reload") and rng.random() < 0.7 else None)
+                run_history(st, h, ctx, d, shape=rng.choice(c12_shapes.NAMES) if st in ("cells", "reload") and rng.random() < 0.7 else None,
+                            two_dirs=rng.random() < 0.3)
                 del EXEC[:]
             if case["i"] % 20 == 0:
                 ctx.sample(dict(style="random", history=h))
@@ -321,7 +382,8 @@ def run_case(case, ctx):
 
 def run_processes(case, ctx):
     rng = harness.rng_for(ctx.seed, ID, "proc", case["i"])
-    style = rng.choice(["module", "main"])
+    style = rng.choice(["module", "main", "module-two-directories"])
+    two = style == "module-two-directories"
     d = harness.mkscratch("vjl-c12p-")
     try:
         nsess = rng.randint(3, 6)
@@ -338,9 +400,12 @@ def run_processes(case, ctx):
         hist = []
         for si, k in enumerate(versions):
             args = [rng.randint(0, 2) for _ in range(rng.randint(1, 4))]
-            if si > 0 and versions[si - 1] != k:
+            which = [rng.randint(0, 1) for _ in args] if two else None
+            if two:
+                ctx.count("sessions_with_two_cache_directories")
+            if si > 0 and versions[si - 1] != k and not two:
                 known = set()
-            cfg = dict(style=style, version=k, args=args, dir=d, log=log, shape=shape)
+            cfg = dict(style="module" if two else style, version=k, args=args, dir=d, log=log, shape=shape, which=which)
             cf, of = os.path.join(d, f"cfg{si}.json"), os.path.join(d, f"out{si}.json")
             with open(cf, "w") as f:
                 json.dump(cfg, f)
@@ -350,7 +415,7 @@ def run_processes(case, ctx):
             if not r["result"]:
                 ctx.inconclusive("session-failed", dict(cfg=cfg, err=r["err"][-400:]))
                 return
-            hist.append((k, args))
+            hist.append((k, args) if not two else (k, args, which))
             desc = dict(style=style, sessions=hist, shape=shape)
             executed = [tuple(json.loads(l)) for l in open(log).read().splitlines()]
             for a, got in zip(args, r["result"]["values"]):
@@ -358,7 +423,7 @@ def run_processes(case, ctx):
                 if got != [f"v{k}", a]:
                     ctx.violation(f"wrong-version:processes-{style}" + (":" + shape if shape else ""), f"session {si} running version {k}: f({a}) returned {got}; sessions so far {hist}", desc)
                     return
-            if si > 0 and versions[si - 1] == k:
+            if si > 0 and versions[si - 1] == k and not two:
                 ctx.count("unchanged_sessions_checked")
                 again = [e for e in executed if (e[0], e[1]) in {(f"v{kk}", aa) for kk, aa in known}]
                 if again:
